@@ -225,6 +225,22 @@ def case_linear(rep):
         As = svk.hessian([np.eye(3).reshape(3, 3, 1, 1), None])[0][..., 0, 0]
         compare(run, "LinearElasticOrthotropic~svk_orthotropic(F=I)", "elasticity", As, Ao, maxabs(Ao), 1e-10, "linear:orthotropic",
                 sample={"pair": "orthotropic", "E": Eo, "nu": nuo, "G": Go})
+        # the orthotropic law itself against its definition: normal block = inverse of the compliance matrix built from the
+        # engineering constants E = (E1, E2, E3), nu = (nu12, nu23, nu31), G = (G12, G23, G31); shear terms = G
+        Sm = np.array([[1 / Eo[0], -nuo[0] / Eo[0], -nuo[2] / Eo[2]], [-nuo[0] / Eo[0], 1 / Eo[1], -nuo[1] / Eo[1]], [-nuo[2] / Eo[2], -nuo[1] / Eo[1], 1 / Eo[2]]])
+        Cm = np.linalg.inv(Sm)
+        Adef = np.zeros((3, 3, 3, 3))
+        for i_ in range(3):
+            for j_ in range(3):
+                Adef[i_, i_, j_, j_] = Cm[i_, j_]
+        for (i_, j_), g_ in zip(((0, 1), (1, 2), (2, 0)), Go):
+            Adef[i_, j_, i_, j_] = Adef[j_, i_, j_, i_] = Adef[i_, j_, j_, i_] = Adef[j_, i_, i_, j_] = g_
+        compare(run, "LinearElasticOrthotropic~definition", "elasticity", Ao, Adef, maxabs(Adef), 1e-12, "linear:orthotropic:definition",
+                sample={"pair": "orthotropic definition", "E": Eo, "nu": nuo, "G": Go})
+        Fo_ = np.eye(3).reshape(3, 3, 1, 1) + 0.01 * rng.standard_normal((3, 3) + batch)
+        eo_ = 0.5 * (Fo_ + Fo_.transpose(1, 0, 2, 3)) - np.eye(3).reshape(3, 3, 1, 1)
+        compare(run, "LinearElasticOrthotropic~definition", "stress", lo.gradient([Fo_, None])[0], np.einsum("ijkl,kl...->ij...", Adef, eo_), maxabs(Adef), 1e-12,
+                "linear:orthotropic:definition")
         # ... for material axes in general position (the linear law is rotated into them by the oracle) and for every
         # Seth-Hill exponent (all strain measures coincide to first order at the undeformed state)
         from ..util import random_rotation
@@ -319,7 +335,7 @@ def _required():
             "NeoHookeCompressible~jax.total_lagrange(S):stress",
             "OgdenRoxburgh(NeoHooke)~tt.ogden_roxburgh(neo_hooke):stress", "OgdenRoxburgh(NeoHooke)~tt.ogden_roxburgh(neo_hooke):statevars",
             "linear:definition", "linear:tensor-notation", "linear:material-strain", "linear:plane-strain", "linear:plane-stress",
-            "linear:orthotropic", "linear:orthotropic-iso", "linear:plane-strain:full", "linear:plane-stress:full", "linear:orthotropic:rotated:k=2", "linear:orthotropic:rotated:k=1", "linear:orthotropic:rotated:k=0", "linear:orthotropic:rotated:k=real", "linear:orthotropic:aligned:k=2", "linear:orthotropic:aligned:k=1", "linear:orthotropic:aligned:k=0", "linear:orthotropic:aligned:k=real"]
+            "linear:orthotropic", "linear:orthotropic-iso", "linear:orthotropic:definition", "linear:plane-strain:full", "linear:plane-stress:full", "linear:orthotropic:rotated:k=2", "linear:orthotropic:rotated:k=1", "linear:orthotropic:rotated:k=0", "linear:orthotropic:rotated:k=real", "linear:orthotropic:aligned:k=2", "linear:orthotropic:aligned:k=1", "linear:orthotropic:aligned:k=0", "linear:orthotropic:aligned:k=real"]
     reg_mu = ["NeoHooke(mu,bulk)", "NeoHookeCompressible(mu,lmbda)", "LinearElasticLargeStrain(E,nu)", "tt.neo_hooke", "tt.mooney_rivlin", "tt.yeoh",
               "tt.third_order_deformation", "tt.blatz_ko", "tt.van_der_waals", "tt.storakers", "tt.extended_tube[delta=0]", "tt.ogden",
               "tt.arruda_boyce", "tt.alexander", "tt.anssari_benam_bucchi", "tt.lopez_pamies", "tt.saint_venant_kirchhoff", "jax.neo_hooke",
